@@ -176,19 +176,19 @@ class BaseEdge(ABC):
 
         """
         jacobian = np.zeros(err.shape + (dim,))
-        p0 = self.vertices[vertex_index].pose.copy()
+        p0 = self.vertices[vertex_index].pose
 
         for d in range(dim):
             # update the pose
             delta_pose = np.zeros(dim)
             delta_pose[d] = self._NUMERICAL_DIFFERENTIATION_EPSILON
-            self.vertices[vertex_index].pose += delta_pose
+            self.vertices[vertex_index].pose = p0 + delta_pose
 
             # compute the numerical derivative
             jacobian[:, d] = (self.calc_error() - err) / self._NUMERICAL_DIFFERENTIATION_EPSILON
 
-            # restore the pose
-            self.vertices[vertex_index].pose = p0.copy()
+            # restore the pose (the original object, exactly as it was)
+            self.vertices[vertex_index].pose = p0
 
         return jacobian
 
